@@ -187,7 +187,7 @@ fn record(ctype: u8, version: u16, payload: &[u8]) -> Vec<u8> {
 
 fn negative(t: &mut Tape, obs: &mut Obs) -> R {
     let version = gen_version(t);
-    let (what, mut buf): (String, Vec<u8>) = match t.below(6) {
+    let (what, mut buf): (String, Vec<u8>) = match t.below(7) {
         0 => {
             let c = t.pick(&[0x14u8, 0x15, 0x16]);
             (format!("empty-payload:{}", kind_label(c)), record(c, version, &[]))
@@ -251,6 +251,18 @@ fn negative(t: &mut Tape, obs: &mut Obs) -> R {
             e.u24(declared);
             e.bytes(&body);
             ("cut-short:handshake-declared-length".to_string(), record(0x16, version, &e.buf))
+        }
+        5 => {
+            // a single handshake message whose header length is consistent with the record (type + u24 length + exactly that many bytes, filling
+            // the record) but whose body is too short for its type: malformed first message, must be an error (not Incomplete: the record is
+            // complete) by both routes. Only lengths that no decoder of the type can accept are used.
+            let (ty, max) = t.pick(&[(1u8, 34usize), (2, 34), (4, 3), (11, 2), (22, 3), (24, 0)]);
+            let n = t.below(max + 1);
+            let body: Vec<u8> = if t.bool() { (0..n).map(|_| t.u8()).collect() } else { vec![if t.bool() { 0 } else { 3 }; n] };
+            let mut e = Enc::new();
+            e.u8(ty);
+            e.vec(3, "hs.len", &body);
+            (format!("malformed-first:short-body:{}", ty), record(0x16, version, &e.buf))
         }
         _ => {
             let mut c = t.u8();
